@@ -13,16 +13,17 @@ impl Monitor for C12 {
         "C12"
     }
     fn gens(&self, tier: Tier) -> Vec<Gen> {
-        vec![gen("histories", tier.pick(3_000, 400_000, 2))]
+        vec![gen("histories", tier.pick(3_000, 400_000, 2)), gen("mask-limited", tier.pick(120, 6_000, 1))]
     }
     fn rule(&self) -> String {
-        "histories of 100-600 uplinks per (region, front-end) with accepted/rejected/confirmed downlinks (RX1, RX2, Class C) placed around n = 63/64/65/95/96/97/127/128 uplinks since the last accepted downlink, ADR toggles and application data-rate overrides; every uplink is decoded by the reference codec and compared with a step-by-step model of the statement (DevAddr, MType, ACK, ADR, ADRACKReq, data rate). Class = (region, n-class at event, event kind, rate).".into()
+        "histories of 100-600 uplinks per (region, front-end) with accepted/rejected/confirmed downlinks (RX1, RX2, Class C) placed around n = 63/64/65/95/96/97/127/128 uplinks since the last accepted downlink, ADR toggles and application data-rate overrides; every uplink is decoded by the reference codec and compared with a step-by-step model of the statement (DevAddr, MType, ACK, ADR, ADRACKReq, data rate). mask-limited: US915/AU915 devices commanded (LinkADRReq, ChMaskCntl 7) onto the 500 kHz rate with every 125 kHz channel off, then 70-140 unanswered uplinks: the back-off must never move the device to a rate that has no enabled channel (every uplink goes out, at the 500 kHz rate, on an enabled channel). Class = (region, n-class at event, event kind, rate).".into()
     }
     fn assumptions(&self) -> Vec<String> {
         vec![
             "n = uplinks completed since the last accepted downlink; ADRACKReq is expected from the uplink sent with n >= 64, the rate steps after the uplink that makes n = 96, 128, ...".into(),
             "comparison of the n-dependent bits (ADRACKReq, back-off) is suspended from an ADR toggle until the next accepted downlink (the statement does not define the counter across toggles)".into(),
             "'a lower data rate exists' = a lower LoRa uplink rate of the region that the crate implements (set_datarate is only called with uplink rates the region defines)".into(),
+            "mask-limited: whether a lower rate 'exists' when the channel mask enables no channel for it is left open by the statement, so ADRACKReq is not compared there; only the rate and the channel are".into(),
             "after a downlink carrying LinkADRReq the model's rate is re-read from the device (correctness of that step is C08's)".into(),
         ]
     }
@@ -30,14 +31,93 @@ impl Monitor for C12 {
         if tier == Tier::Sanitizer {
             vec!["uplinks_checked"]
         } else {
-            vec!["uplinks_checked", "adrackreq_expected", "backoff_step_expected", "ack_expected", "accepted_downlink", "rejected_downlink", "adr_toggle", "at_lowest_rate_with_n_ge_64", "classc_downlink", "two_classc_downlinks"]
+            vec!["uplinks_checked", "adrackreq_expected", "backoff_step_expected", "ack_expected", "accepted_downlink", "rejected_downlink", "adr_toggle", "at_lowest_rate_with_n_ge_64", "classc_downlink", "two_classc_downlinks", "mask_limited_uplinks"]
         }
     }
 
-    fn run_case(&self, _g: &str, idx: u64, rng: &mut Prng, col: &mut Collector) {
+    fn run_case(&self, g: &str, idx: u64, rng: &mut Prng, col: &mut Collector) {
         let front = FRONTS[(idx % 3) as usize];
+        if g == "mask-limited" {
+            let reg = if (idx / 3) % 2 == 0 { Reg::US915 } else { Reg::AU915 };
+            mask_limited(front, reg, rng, col);
+            return;
+        }
         let reg = regions::ALL[((idx / 3) % 9) as usize];
         history(front, reg, rng, col);
+    }
+}
+
+/// Fixed plan, 500 kHz uplink rate, no 125 kHz channel enabled: ADR back-off has nowhere to go.
+fn mask_limited(front: Front, reg: Reg, rng: &mut Prng, col: &mut Collector) {
+    let opts = DevOpts { rng_seed: Some(rng.next_u64()), ..Default::default() };
+    let Ok((mut dev, net)): Result<(Dev, Net), _> = abp_dev(front, reg, rng, &opts, |_| {}) else {
+        col.event("harness_session_json_rejected");
+        return;
+    };
+    let dr500 = if reg == Reg::US915 { 4u8 } else { 6u8 };
+    let mask = (rng.range(1, 256) as u16) & 0x00ff;
+    let start_dr = *rng.pick(&uplink_drs(reg));
+    dev.set_datarate(start_dr);
+    // the command either names the 500 kHz rate or keeps the current one (0xF) when already there
+    let cmd_dr = if start_dr == dr500 && rng.bool() { 0xF } else { dr500 };
+    let cmd = link_adr_req(cmd_dr, 0xF, mask, 7, 1);
+    let mut script = Script::default();
+    let f = net.mac_downlink(1, &cmd, rng.bool());
+    if rng.bool() {
+        script.rx1.push(f);
+    } else {
+        script.rx2.push(f);
+    }
+    let r = dev.transact(Action::Send { data: &[1], port: 3, confirmed: false }, &script);
+    if let Resp::Panic(m, l) = &r {
+        col.violation(&format!("C12|panic|{}|{}", reg.name(), short_loc(l)), "device panicked during an ADR history", json!({"msg": m, "loc": l, "phase": "mask-limited setup"}));
+        return;
+    }
+    let snap = dev.snapshot();
+    let only500 = snap.region.channel_mask[..8].iter().all(|b| *b == 0) && snap.region.channel_mask[8] == mask as u8;
+    if !only500 || snap.data_rate != dr500 {
+        // the command was not taken: not the state this generator is about (C08 judges that)
+        col.event("mask_limited_state_not_reached");
+        return;
+    }
+    let total = rng.range(70, 141) as usize;
+    let mut up_min = 1u32;
+    for step in 0..total {
+        let ev0 = dev.ev_len();
+        let resp = dev.transact(Action::Send { data: &[step as u8], port: 3, confirmed: false }, &Script::silent());
+        let ctx = |what: &str| json!({"what": what, "front": front.name(), "region": reg.name(), "unanswered_uplinks": step + 1, "mask_500k": mask, "start_dr": start_dr, "resp": format!("{:?}", resp)});
+        if let Resp::Panic(m, l) = &resp {
+            let kind = if m.contains("rng-budget") || m.contains("poll-budget") { "send-does-not-return" } else { "panic" };
+            col.violation(&format!("C12|mask-limited|{}|{}|{}", kind, reg.name(), n_class(step as u32 + 1)), "with no 125 kHz channel enabled the device left the 500 kHz rate on its own (or panicked): the uplink can not be sent", json!({"msg": m, "loc": l, "ctx": ctx("panic")}));
+            return;
+        }
+        let txs = dev.tx_since(ev0);
+        let Some(Ev::Tx { bytes, sf, bw, freq, .. }) = txs.first().cloned() else {
+            col.violation(&format!("C12|mask-limited|no-uplink|{}|{}", reg.name(), n_class(step as u32 + 1)), "send did not hand a frame to the radio", ctx("no-uplink"));
+            return;
+        };
+        col.event("mask_limited_uplinks");
+        col.eval(&format!("mask-limited|{}|{}|{}", reg.name(), n_class(step as u32 + 1), front.name()));
+        if Some((sf, bw)) != reg.lora_dr(dr500) {
+            col.violation(&format!("C12|mask-limited|rate|{}|{}|got=sf{}bw{}", reg.name(), n_class(step as u32 + 1), sf, bw / 1000), "the data rate changed on its own to a rate for which no channel is enabled", ctx("rate"));
+            return;
+        }
+        match reg.fixed_channel_of(freq) {
+            Some(k) if k >= 64 && mask & (1 << (k - 64)) != 0 => {}
+            other => {
+                col.violation(&format!("C12|mask-limited|channel|{}|{}", reg.name(), n_class(step as u32 + 1)), "uplink on a channel the mask does not enable", json!({"channel": other, "freq": freq, "ctx": ctx("channel")}));
+                return;
+            }
+        }
+        if let Some(u) = net.decode_uplink(&bytes, up_min) {
+            up_min = u.fcnt + 1;
+            if !u.view.adr() {
+                col.violation("C12|adr-bit|expected=true", "ADR bit differs from the ADR setting", ctx("adr"));
+            }
+        } else {
+            col.violation(&format!("C12|undecodable-uplink|{}", front.name()), "uplink does not decode under the session keys/address", json!({"frame": hex(&bytes)}));
+            return;
+        }
     }
 }
 
